@@ -9,7 +9,8 @@ import c17_util as U
 ID = "C17"
 THEOREMS = ["C17_combine", "C17_combine_sorted", "C17_filter", "C17_next_use", "C17_buffet_binding",
             "C17_schedule_interleaves", "C17_buffet_run_binding", "C17_buffet_machine",
-            "C17_buffet_fills_writebacks", "C17_bounds", "C17_line_granular", "C17_cache_tie_refuted",
+            "C17_buffet_fills_writebacks", "C17_bounds", "C17_line_granular", "C17_cache_machine",
+            "C17_cache_tie_refuted",
             "C17_model_meets_spec", "C17_model_meets_spec_no_cache"]
 COQ_IMPORTS = "From FT Require Import Model.Base Model.Obs Model.C17Traffic Model.C17Check."
 CHECK_VO = ["Model/C17Check.v"]
@@ -42,8 +43,12 @@ EXPLANATION = ("theorems: combine = stable sort; filter = membership filter; nex
                "k-way merge is an interleaving; buffet state machine (in-order drain) = (line, window) first-occurrence "
                "counts for every window-sorted access sequence, lifted to the per-tensor observation of the model "
                "(C17_buffet_fills_writebacks); bounds; line granularity; model meets every oracle clause except the "
-               "cache clause (hypothesis of C17_model_meets_spec); cache: oracle-checked MIN-with-bypass on access "
-               "indices, refuted under stamp ties")
+               "cache clause (hypothesis of C17_model_meets_spec); cache state machine refines the furthest-next-use-"
+               "with-bypass policy g_min_run for every (stamp, binding)-ordered schedule with correct next-use "
+               "stamps (C17_cache_machine: no AssertionError, fills equal); that the model's merged schedule of a "
+               "case is such a schedule and equals the oracle's is not proved - the cache clause of the oracle "
+               "(min_run = g_min_run at the oracle's records, monotone in capacity) is checked on every case; "
+               "refuted under stamp ties")
 
 
 # ------------------------------------------------------------------ generator
